@@ -37,7 +37,9 @@ new_globals = globals()
 new_globals["__file__"] = pathname
 sys.path.insert(0, os.path.dirname(pathname))
 
-code = open(sys.argv[0]).read()
+# compile with the real file name so that tracebacks, warnings and inspect
+# show the script (and its source lines) just like a normal run
+code = compile(open(sys.argv[0]).read(), pathname, "exec")
 sys.setprofile(uftrace_python.trace)
 exec(code, new_globals)
 sys.setprofile(None)
